@@ -371,6 +371,11 @@ func (set *Set) add(hosts ...*Host) {
 		return
 	}
 	for _, host := range hosts {
+		// The address may already be known as another host, e.g. with another
+		// type, which must not be left behind in its healthy tier.
+		if old, ok := set.all[host.Addr]; ok && old != host {
+			set.removeFromHealthy(old)
+		}
 		set.all[host.Addr] = host
 	}
 	set.addToHealthy(hosts...)
